@@ -14,7 +14,7 @@ STD_ADTS = {
     "Result": {"kind": "enum", "variants": [("Ok", ["0"]), ("Err", ["0"])]},
     "ControlFlow": {"kind": "enum", "variants": [("Continue", ["0"]), ("Break", ["0"])]},
     "Cow": {"kind": "enum", "variants": [("Borrowed", ["0"]), ("Owned", ["0"])]},
-    "Ordering": {"kind": "enum", "variants": [("Less", []), ("Equal", []), ("Greater", [])], "discr": [-1, 0, 1]},
+    "Ordering": {"kind": "enum", "variants": [("Less", []), ("Equal", []), ("Greater", [])], "discr": [255, 0, 1]},
     "Range": {"kind": "struct", "fields": ["start", "end"]},
     "RangeFrom": {"kind": "struct", "fields": ["start"]},
     "RangeTo": {"kind": "struct", "fields": ["end"]},
